@@ -6,6 +6,7 @@ two spellings of the same code:
 * `if not C: A else: B`  ->  `if C: B else: A`      (only when both branches exist)
 * `x = E; return x`      ->  `return E`              (x a plain name that occurs nowhere else in the function)
 * `if a: if b: X`        ->  `if a and b: X`         (no else on either)
+* a `pass` next to other statements is dropped
 * tests of if / while / assert / conditional expressions are put into negation normal form (De Morgan, `not not`,
   `not a in b` -> `a not in b`, `not a is b` -> `a is not b`)
 * `if c: ..return/raise else: R`  ->  `if c: ..return/raise` followed by R
@@ -119,6 +120,13 @@ class _Canon(ast.NodeTransformer):
         return name not in params and loads == stores == pairs > 0
 
     def _fix_block(self, fnode, stmts):
+        if len(stmts) > 1:
+            kept = [st for st in stmts if not isinstance(st, ast.Pass)]
+            real = [st for st in kept if not (isinstance(st, ast.Expr) and isinstance(st.value, ast.Constant))]
+            if real:
+                stmts = kept  # `pass` next to other statements does nothing (a body of docstring + pass stays as it is)
+            else:
+                stmts = kept + [st for st in stmts if isinstance(st, ast.Pass)][:1]  # ... with a single pass
         out = self._fix_body(fnode, stmts)
         for st in out:
             if isinstance(st, (ast.FunctionDef, ast.AsyncFunctionDef, ast.ClassDef)):
